@@ -325,6 +325,25 @@ pub fn judge(w: &World, run: &Run, focus: Option<&str>) -> (Verdict, RunInfo) {
         }
     }
 
+    // ------------------------------------------------------------------ S1 tree spells its text
+    // The model locates statements and diagnostics by the offsets of the tree; a tree that does
+    // not spell the text it was parsed from makes every span meaningless (and the model stops
+    // expanding at that file), so this is decided before anything else.
+    if let Some((target, tree_len, text_len)) = &m.tree_mismatch {
+        return (
+            viol(
+                "S1",
+                C12,
+                "tree-length",
+                format!(
+                    "`{}`: the tree of the delivered text spells {} bytes, the text has {} (or the same length and different characters)",
+                    target, tree_len, text_len
+                ),
+            ),
+            info,
+        );
+    }
+
     // ------------------------------------------------------------------ S3 on the delivered texts
     // Evaluated on the model's own parse of every delivered text, before anything else: a tree
     // with an ERROR node and no diagnostic is not gated, so the analyser runs on a broken tree
@@ -1268,6 +1287,20 @@ pub fn judge(w: &World, run: &Run, focus: Option<&str>) -> (Verdict, RunInfo) {
                 Ok(rec) => *rec.symbol_type() == Type::Gate(*np, *nq),
                 Err(_) => false,
             };
+            // as if the library's text had been written there: one definition per name, however
+            // often the library is included (a second definition is a redeclaration and binds nothing)
+            let n_symbols = obs.symtab.gates().filter(|g| g.0 == *name).count();
+            if ok && n_symbols != 1 {
+                soft!(info, focus, viol(
+                        "R6",
+                        C18,
+                        "standard-gate-symbols",
+                        format!(
+                            "the project declares nothing called `{}` and includes the standard library; the symbol table lists {} gate symbols of that name, expected 1",
+                            name, n_symbols
+                        ),
+                    ));
+            }
             if !ok {
                 soft!(info, focus, viol(
                         "R6",
